@@ -356,4 +356,28 @@ func init() {
 		Outside: "field lengths other than the class representatives (lengths only enter through len() comparisons with 0, 1024 and 2 MiB); transactions with more than one operation; gRPC transport-level limits; exact status code for oversize keys/values and for leader-side Tables errors (non-OK and no effect are demanded)",
 		Assumptions: []string{"M1, M2 (real Engine, Manager, RaftStore+LFSM, ActiveTable, FSM behind the NodeHost model), M4, M5 (status codes as opaque errors)"},
 	}
+	props["C11"] = &Property{
+		Title: "writes through a follower; waiting never wedges the node",
+		Instances: func(tier string) []*Instance {
+			st := "storage"
+			r := []*Instance{
+				{Pkg: st, Func: "VH_C11_queue", Args: []int64{2, 2}, Unwind: 64},
+				{Pkg: st, Func: "VH_C11_queue", Args: []int64{4, 3}, Unwind: 64},
+				{Pkg: st, Func: "VH_C11_vacuity", Expect: "violated"},
+				{Pkg: "storage/table/fsm", Func: "VH_C11_applied", Args: []int64{1}, Unwind: 32},
+				{Pkg: "storage/table/fsm", Func: "VH_C11_applied", Args: []int64{2}, Unwind: 32},
+			}
+			return r
+		},
+		Covers: map[string][]string{"VH_C11_queue": {"end", "notify", "sweep"}, "VH_C11_applied": {"end", "entry-without-leader-index"}},
+		Bounds: map[string]string{
+			"quick":    "queue: an arbitrary heap of 0..4 waiters on one table (arbitrary 64-bit revisions incl. 0 in heap order, any subset cancelled) followed by 3 events, each an apply notification with an arbitrary revision or a sweep tick, plus a final releasing notification; each waiter's channel read exactly once; a state where every goroutine is blocked is a violation. listener: follower table with arbitrary unrelated local and leader index, apply batches of 1..2 entries each with/without leader index",
+			"thorough": "same",
+		},
+		Outside: "two tables at once (heaps are per table and independent); Add racing with the events (Add is sequential with them here); the gRPC forwarding itself (ForwardingKVServer passes the leader's revision to Add: read, not encoded); FSM.Open's report (needs the file-system model: C04); operator reset (leader index 0)",
+		Assumptions: []string{
+			"scheduler of the engine: goroutines interleave at channel operations; select picks every ready case; time (ticks, sleeps) passes only when every other goroutine is blocked",
+			"contexts are cancelled by the environment only between events",
+		},
+	}
 }
